@@ -206,7 +206,7 @@ impl<T: Elem> Fam for SliceFam<T> {
     type M<'a> = SM<'a, T>;
     type Item = SItem<T>;
 
-    fn gen_setup(rng: &mut Rng, tier: Tier) -> SSetup {
+    fn gen_setup(rng: &mut Rng, tier: Tier, _prop: &str) -> SSetup {
         let maxlen = if tier == Tier::Thorough { 40 } else { 12 };
         let len = if rng.chance(1, 8) { rng.range(0, 2) } else { rng.range(0, maxlen) };
         let kind = *rng.pick(&KINDS);
